@@ -116,7 +116,7 @@ func isExternalStruct(t types.Type) bool {
 var transparentExternal = map[string]bool{
 	"net/http.Request": true, "net/http.Response": true, "net/http.Server": true, "net/http.Transport": true,
 	"net/http.Client": true, "net.Dialer": true, "net/url.URL": true, "net/http/httputil.ReverseProxy": true,
-	"crypto/tls.Config": true,
+	"crypto/tls.Config": true, "net.IPNet": true,
 }
 
 func namedKey(n *types.Named) string {
